@@ -7,7 +7,7 @@ import z3
 
 from . import drv, vals, solve, validate, mpc_common as mc, check_c01
 from .cctypes import T, st_bits, st_signed
-from .common import Check, pool_map
+from .common import Check, pool_map, safe_analyze
 from .interp import Interp, Unsupported, flat_elems
 from .prog import single_graph
 from .validate import op_name
@@ -96,6 +96,7 @@ def bad_div(out_el, x_el, d, st, it=None):
     return z3.Not(z3.Or(diff == 0, diff == 1, diff == z3.BitVecVal((1 << w) - 1, w)))
 
 
+@safe_analyze(lambda a: dict(id=a[0]["id"], status=None, queries=[], note="", cex=None, n_nodes=0, validated=0, mism=[]))
 def analyze(args):
     case, res, timeout_s = args
     out = dict(id=case["id"], status=None, queries=[], note="", cex=None, n_nodes=0, validated=0, mism=[])
